@@ -324,4 +324,12 @@ def legalRun (st : State) : List Op → Bool
   | [] => true
   | op :: ops => legal st op && legalRun (step st op) ops
 
+/-- the documented preconditions of one call as a decidable proposition -/
+def Legal (st : State) (op : Op) : Prop := legal st op = true
+instance (st : State) (op : Op) : Decidable (Legal st op) := inferInstanceAs (Decidable (legal st op = true))
+
+/-- a history all of whose calls are legal when they are made, starting from a new router -/
+def LegalHistory (ops : List Op) : Prop := legalRun init ops = true
+instance (ops : List Op) : Decidable (LegalHistory ops) := inferInstanceAs (Decidable (legalRun init ops = true))
+
 end AdaptaVerif.Model.ActionQueue
